@@ -148,6 +148,7 @@ DIRECTED = [
     B(query=[([], None), ([], None)]), B(query=[], fragment=[]), B(fragment=["%23#?"]), B(path=[["a b"], ["%20"]], query=[(["k k"], ["v v"])], fragment=["f f"]),
     B(path=[["%"], ["%4"], ["%zz"]], query=[(["%"], ["%%41"])]), B(path=[["+"], ["%2B"]], query=[(["+"], ["%2B"])]), B(host="example.com.", path=[["x"]]),
     B(scheme="HTTP://", host="EXAMPLE.COM", port=":80", path=[["A"]]), B(path=[["é"], ["%C3%A9"], ["%c3%a9"]]), B(path=[["a;b"], ["c,d"], ["(e)"]]),
+    B(query=[(["a"], ["1"]), (["amp;b"], ["2"]), (["amp%3Bc"], ["3"])]), B(query=[(["amp;"], None), (["AMP;x"], ["y"])], fragment=["&amp;z"]),  # "&amp;" is data here
 ]
 
 
